@@ -22,6 +22,7 @@
 
 #include "var_opt_union.hpp"
 
+#include <algorithm>
 #include <cmath>
 #include <sstream>
 #include <stdexcept>
@@ -548,7 +549,7 @@ void var_opt_union<T, A>::mark_moving_gadget_coercer(var_opt_sketch<T, A>& sk) c
   }
 
   if (result_h + result_r != result_k) throw std::logic_error("H + R counts must equal k");
-  if (std::abs(transferred_weight - outer_tau_numer_) > 1e-10) {
+  if (std::abs(transferred_weight - outer_tau_numer_) > 1e-10 * std::max(1.0, outer_tau_numer_)) { // relative: the sum is accumulated in floating point
     throw std::logic_error("unexpected mismatch in transferred weight");
   }
 
